@@ -549,20 +549,32 @@ def harness_mod(d, N, m, unwind, stub_width=True, tags=None):
     stub = "#[kani::stub(unicode_width::UnicodeWidthChar::width, crate::stub_width)]\n    " if stub_width else ""
     T = dict(tags or {})
     via = d.get("via")
-    if via in ("clone", "str", "new", "new_from_iter"):
+    if via in ("clone", "clone2", "str", "new", "new_from_iter"):
         # every assertion of these variants formalises C15 / C14 (the same step contract, for a cloned / string-built lexer)
-        only = "C15" if via == "clone" else "C14"
+        only = "C15" if via in ("clone", "clone2") else "C14"
         for k in ("tok", "span", "errkind", "errloc", "custom", "customloc", "none", "extra", "okerr", "errok", "rs", "pos", "match", "done", "lm", "logn", "log"):
             T[k] = only
     pos_check = 'assert!(consumed(&lx.0.__iter, n) == r.pos, "[%s] input position after the call differs from the reference");' % T.get("pos", "C01 C02 C04 C05 C08 C11")
     post = ""
     symbolic_state = "let base = any_base();\n        let rs0: u8 = kani::any(); kani::assume((rs0 as usize) < %d);\n        let done0: bool = kani::any();" % len(set_names)
     base_construct = "let mut lx = L::new_from_iter_with_state(ArrIter { a, n, i: 0 }, Log::default());\n        lx.0.__verif_set_locs(base);\n        %s\n        lx.0.__done = done0;" % enter_code
-    if via == "clone":
+    if via in ("clone", "clone2"):
         # C15: the lexer under test is a CLONE taken at the call boundary; the original must stay untouched by the clone's call
         construct = base_construct.replace("let mut lx =", "let mut orig =").replace("lx.0.", "orig.0.").replace("lx.switch", "orig.switch") + \
             "\n        let mut lx = orig.clone();\n        let orig_view = (orig.0.__state, orig.0.__initial_state, orig.0.__done, orig.0.match_loc(), orig.0.__iter.size_hint().0, orig.0.__verif_user_state().n);"
         post = 'assert!(orig_view == (orig.0.__state, orig.0.__initial_state, orig.0.__done, orig.0.match_loc(), orig.0.__iter.size_hint().0, orig.0.__verif_user_state().n) && orig.0.__verif_last_match_is_none(), "[C15] a call on the clone changed the original");'
+        if via == "clone2":
+            # the original now takes the same step: it must yield the same item (no state shared outside the two structs)
+            post += """
+        let item2 = orig.next();
+        let same = match (&item, &item2) {
+            (None, None) => true,
+            (Some(Ok(x)), Some(Ok(y))) => x.0 == y.0 && x.1 == y.1 && x.2 == y.2,
+            (Some(Err(e1)), Some(Err(e2))) => e1.location == e2.location && matches!(e1.kind, LexerErrorKind::InvalidToken) == matches!(e2.kind, LexerErrorKind::InvalidToken),
+            _ => false,
+        };
+        assert!(same, "[C15] the original yields a different item than its clone did from the same state");
+        assert!((orig.0.__state, orig.0.__done, orig.0.match_loc(), orig.0.__iter.size_hint().0) == (lx.0.__state, lx.0.__done, lx.0.match_loc(), lx.0.__iter.size_hint().0), "[C15] original and clone end in different states after the same call");"""
     elif via == "new_from_iter":
         # C14: the Default-state iterator constructor (fresh lexer: Init, not done, location zero)
         construct = "let mut lx = L::new_from_iter(ArrIter { a, n, i: 0 });"
